@@ -13,4 +13,4 @@ PY
 if [ $? -ne 0 ]; then echo "mutation failed"; git -C /repo checkout -- .; exit 3; fi
 cd /verif && ./check $PROP 2>&1 | grep -E "VIOLATION|violation\(s\)|^check:" | head -${5:-6}
 ./check $PROP 2>&1 | grep -B1 VIOLATION | grep -v "^VIOLATION\|^--" | cut -c1-260 | head -${5:-6}
-git -C /repo checkout -- .
+git -C /repo checkout -- . # NOTE: discards ALL uncommitted edits in /repo
